@@ -83,6 +83,9 @@ def configs(tier, seed):
     for b in ('shelf', 'disk', 'redis', 'cloud', 'dict'):
         cfgs.append(dict(backend=b, backoff='r10', n=1, script=[E0, ['restart']], d=d, dd=2, menu=MENU))
         cfgs.append(dict(backend=b, backoff='r10-20', n=1, script=[E0, ['restart'], ['restart']], d=d - 1, dd=2, menu=MENU))
+    # retries run out inside a bounded store pool (the bounce needs storage slots of its own) while another message waits
+    cfgs.append(dict(backend='dict', backoff='never', n=1, script=[E0, E1], store_pool=1, d=d, dd=2, menu=MENU))
+    cfgs.append(dict(backend='dict', backoff='r0x2', n=1, script=[E0, E1, F], store_pool=2, d=d - 1, dd=3, menu=MENU))
     # a stored message damaged by an earlier crash (envelope file without meta file) must not hide the others from the start-up load
     for k in (0, 1):
         cfgs.append(dict(backend='disk', backoff='r10', n=1, messages=0, prestored=3, prestored_due=0.0, damage_meta=k, d=1, dd=1, menu=MENU))
